@@ -55,13 +55,15 @@ fn statuses(out: &[u8]) -> Vec<u16> {
     let t = String::from_utf8_lossy(out);
     t.match_indices("HTTP/1.1 ").filter_map(|(i, _)| t[i + 9..].get(..3).and_then(|c| c.parse().ok())).collect()
 }
-/// one scripted connection: a list of (kind, code, body length); kinds r g d p
+/// one scripted connection: a list of (kind, code, body length); kinds r g d p, and e = r with `Expect: 100-continue`
+/// (the client sends the body without waiting, as RFC 7231 5.1.1 allows)
 fn scenario(s: &Server, small: usize, reqs: &[(char, u16, usize)]) -> Option<String> {
     let desc = format!("conn S={small} reqs={}", reqs.iter().map(|(k, c, l)| format!("{k}{c}:{l}")).collect::<Vec<_>>().join(","));
     let mut msg = Vec::new();
     for (i, (k, code, l)) in reqs.iter().enumerate() {
         let path = path_of(*k, *code);
-        if *l > 0 { msg.extend_from_slice(format!("POST {path} HTTP/1.1\r\ncontent-length: {l}\r\n\r\n").as_bytes()); msg.extend_from_slice(&body_of(*l, i)); }
+        let expect = if *k == 'e' { "expect: 100-continue\r\n" } else { "" };
+        if *l > 0 { msg.extend_from_slice(format!("POST {path} HTTP/1.1\r\n{expect}content-length: {l}\r\n\r\n").as_bytes()); msg.extend_from_slice(&body_of(*l, i)); }
         else { msg.extend_from_slice(format!("GET {path} HTTP/1.1\r\n\r\n").as_bytes()); }
     }
     s.log.lock().unwrap().clear();
@@ -82,7 +84,7 @@ fn scenario(s: &Server, small: usize, reqs: &[(char, u16, usize)]) -> Option<Str
     }
     first_err
 }
-fn path_of(k: char, code: u16) -> String { match k { 'r' => format!("/r/{code}"), 'g' => format!("/g/{code}"), 'd' => "/d".to_string(), _ => "/p".to_string() } }
+fn path_of(k: char, code: u16) -> String { match k { 'r' | 'e' => format!("/r/{code}"), 'g' => format!("/g/{code}"), 'd' => "/d".to_string(), _ => "/p".to_string() } }
 type Run = (String, bool, Option<u64>, u64);
 fn expect(small: usize, reqs: &[(char, u16, usize)], close_after_4xx: bool) -> (Vec<u16>, Vec<Run>) {
     let mut want_status = Vec::new();
@@ -96,7 +98,7 @@ fn expect(small: usize, reqs: &[(char, u16, usize)], close_after_4xx: bool) -> (
         let seen = |p: bool| -> Run { if p { (path.clone(), true, Some(*l as u64), 0) } else { (path.clone(), false, Some(*l as u64), checksum(&body)) } };
         let ends = |c: u16| c >= 500 || (c >= 400 && close_after_4xx);
         match k {
-            'r' => { want_runs.push(seen(pending)); want_status.push(*code); if ends(*code) || pending { open = false; } }
+            'r' | 'e' => { want_runs.push(seen(pending)); want_status.push(*code); if ends(*code) || pending { open = false; } }
             'g' => { if pending { want_runs.push(seen(true)); } want_runs.push(seen(false)); want_status.push(*code); if ends(*code) { open = false; } }
             'd' => { want_runs.push(seen(pending)); open = false; }
             _ => { want_runs.push(seen(pending)); want_status.push(500); open = false; }
@@ -123,7 +125,7 @@ fn main() {
     for small in [0usize, 10, 100] {
         let s = start(small);
         let lens = [0usize, 1, small, small + 1, 3 * small + 50];
-        let kinds: Vec<(char, u16)> = vec![('r', 200), ('r', 204), ('r', 404), ('r', 500), ('g', 200), ('g', 404), ('d', 0), ('p', 0)];
+        let kinds: Vec<(char, u16)> = vec![('r', 200), ('r', 204), ('r', 404), ('r', 500), ('g', 200), ('g', 404), ('d', 0), ('p', 0), ('e', 200)];
         // single requests, then pairs and triples (the connection must stop where the rules say)
         for (k, c) in &kinds { for l in lens { n += 1; if let Some(w) = scenario(&s, small, &[(*k, *c, l)]) { if found.len() < 6 { found.push(w) } } } }
         for (k1, c1) in &kinds { for (k2, c2) in &kinds { for (l1, l2) in [(0, 0), (small, small + 1), (small + 1, 0), (1, 3 * small + 50)] {
